@@ -19,11 +19,13 @@ import Drv.Grid
 import Drv.Combine
 import Drv.PathRes
 import Drv.Blocks
+import Drv.Errors
+import Drv.Rewrites
 open Lean
 
 def handlers : List (String → Json → Option (Except String Json)) :=
   [Drv.handleSegment, Drv.handleBundle,
-   Drv.handleMeta, Drv.handleEquals, Drv.handleConvert, Drv.handleLoad, Drv.handleResource, Drv.handleReader, Drv.handleWrite, Drv.handleJson, Drv.handleGrid, Drv.handleCombine, Drv.handlePathRes, Drv.handleBlocks]
+   Drv.handleMeta, Drv.handleEquals, Drv.handleConvert, Drv.handleLoad, Drv.handleResource, Drv.handleReader, Drv.handleWrite, Drv.handleJson, Drv.handleGrid, Drv.handleCombine, Drv.handlePathRes, Drv.handleBlocks, Drv.handleErrors, Drv.handleRewrites]
 
 def dispatch (j : Json) : Except String Json := do
   let op ← (← j.getObjVal? "op").getStr?
